@@ -133,7 +133,13 @@ func (e *Enc) runHooksNamed(when, name string, ord int, at posser, args []Term, 
 			}
 		}
 		for i, r := range results {
-			se.binds[fmt.Sprintf("ret%d", i)] = specVal{t: r}
+			sv := specVal{t: r}
+			if ci != nil {
+				if rs := ci.Common().Signature().Results(); rs != nil && i < rs.Len() {
+					sv.typ = rs.At(i).Type()
+				}
+			}
+			se.binds[fmt.Sprintf("ret%d", i)] = sv
 		}
 		return se
 	}
@@ -1145,6 +1151,7 @@ func (e *Enc) onChanRecv(x *ssa.UnOp) {
 		e.assumed["a receive on a channel nothing is sent on completes only after the channel was closed (Go channel semantics, trusted)"] = true
 	}
 }
+
 // onSelect: ghost hooks anchored at select arms: `ghost after call select:arm<k> : ...` runs when arm k was chosen.
 func (e *Enc) onSelect(x *ssa.Select, idx Term) {
 	if e.fc == nil {
